@@ -20,7 +20,7 @@ RULE = (
     "without bus as non-matching controls); compiled once per program with the generic harness, the reflection binary loaded "
     "for the run-time schema. Per binding 8 (quick) / 40 (thorough) values and, per program, frames with non-matching "
     "(id, bus): unused id with a used bus, used id with an unused bus, and near misses of a declared pair (bus extended by "
-    "one character, truncated, upper-cased, reversed; id off by one). Oracle for CanStaticSchema and "
+    "one character, truncated, upper-cased, reversed; id off by one; a digit moved between the id and the bus tag). Oracle for CanStaticSchema and "
     "CanDynamicSchema: (a) Encode(name, v) == {bus NUL-padded to 4, sid = id, dlc = len(canonical bytes), data = canonical "
     "bytes + zeros}; (b) Decode(that frame) == (name, v); (c) a frame whose (id, bus) matches no binding => nullopt; (d) "
     "both schemas agree. Non-trivial = program with >= 2 bindings, or a bus shorter than 4, or a payload that is not a byte "
@@ -61,8 +61,14 @@ def program(draw, n_values: int):
         if declared and draw(st.booleans()):
             # near misses of a declared (id, bus): the bus extended, truncated, case-changed, or the id off by one
             bid, bbus = draw(st.sampled_from(declared))
-            k = draw(st.integers(0, 4))
-            if k == 0 and len(bbus) < 4:
+            k = draw(st.integers(0, 6))
+            sid = str(bid)
+            if k == 5 and len(sid) >= 2 and len(bbus) < 4 and sid[1] != "0":
+                # same concatenation "bus|id": one digit moved from the id to the bus tag
+                fid, bus = int(sid[1:]), bbus + sid[0]
+            elif k == 6 and len(bbus) > 1 and bbus[-1].isdigit() and int(bbus[-1] + sid) <= 2047:
+                fid, bus = int(bbus[-1] + sid), bbus[:-1]
+            elif k == 0 and len(bbus) < 4:
                 fid, bus = bid, bbus + draw(st.sampled_from(["2", "x", "0"]))
             elif k == 1 and len(bbus) > 1:
                 fid, bus = bid, bbus[:-1]
